@@ -8,6 +8,7 @@ mod free;
 mod gen;
 mod json;
 mod l2;
+mod probe;
 mod marathon;
 mod spawnathon;
 mod minimize;
@@ -54,7 +55,7 @@ fn parse_args(raw: &[String]) -> Args {
     let mut flags = Vec::new();
     let takes_value = [
         "--seed", "--from", "--to", "--stride", "--offset", "--out", "--idx",
-        "--watchdog", "--family", "--tmp", "--plan", "--threads", "--budget", "--steps", "--part", "--ops", "--mode", "--alive",
+        "--watchdog", "--family", "--tmp", "--plan", "--threads", "--budget", "--steps", "--part", "--ops", "--mode", "--alive", "--probes", "--probe-from",
     ];
     let mut i = 0;
     while i < raw.len() {
@@ -95,7 +96,12 @@ impl Args {
 }
 
 fn cmd_l2(a: &Args) -> Result<i32, String> {
-    let rep = l2::run(a.kv.get("--family").cloned())?;
+    let n_probes = match a.kv.get("--probes") {
+        Some(x) => x.parse::<u64>().map_err(|e| format!("--probes: {}", e))?,
+        None => probe::DEFAULT_PROBES,
+    };
+    let p_from = a.u64("--probe-from", 0)?;
+    let rep = l2::run_n(a.kv.get("--family").cloned(), (p_from, n_probes))?;
     let fails: Vec<String> = rep
         .failures
         .iter()
@@ -112,6 +118,23 @@ fn cmd_l2(a: &Args) -> Result<i32, String> {
         .num("witness_evals", rep.witness_evals)
         .num("pairs_separated", rep.pairs_separated)
         .str("sample", &rep.sample)
+        .num("probe_from", p_from as usize)
+        .num("probes", rep.probe.probes as usize)
+        .num("probes_judged", rep.probe.judged as usize)
+        .num("probes_skipped_no_value", rep.probe.skipped as usize)
+        .num("probe_evals", rep.probe.evals as usize)
+        .raw(
+            "probes_judged_per_route",
+            format!(
+                "{{{}}}",
+                probe::ROUTE_NAMES
+                    .iter()
+                    .zip(rep.probe.per_route_judged.iter())
+                    .map(|(n, c)| format!("\"{}\":{}", n, c))
+                    .collect::<Vec<_>>()
+                    .join(",")
+            ),
+        )
         .raw("failures", arr(fails))
         .build();
     if let Some(out) = a.kv.get("--out") {
@@ -145,7 +168,19 @@ fn cmd_replay(a: &Args) -> Result<i32, String> {
             .lines()
             .find_map(|l| l.strip_prefix("family "))
             .map(|s| s.trim().to_string());
-        let rep = l2::run(fam)?;
+        // `probes <from> <n>`: the index range of the random probe (whole-pass replays)
+        let pr = text
+            .lines()
+            .find_map(|l| l.strip_prefix("probes "))
+            .and_then(|s| {
+                let mut it = s.split_whitespace().map(|x| x.parse::<u64>().ok());
+                match (it.next().flatten(), it.next().flatten()) {
+                    (Some(a), Some(n)) => Some((a, n)),
+                    _ => None,
+                }
+            })
+            .unwrap_or((0, probe::DEFAULT_PROBES));
+        let rep = l2::run_n(fam, pr)?;
         for f in &rep.failures {
             println!("!! L2:{} [{}] {}", f.kind, f.family, f.detail);
         }
